@@ -156,7 +156,7 @@ func c02Generate(c *mon.Ctx) {
 
 	// 3. steered intermediates
 	targets := gen.StoredTargets(oracle.P)
-	stride := c.N(3, 1)
+	stride := c.N(1, 1)
 
 	for ti := int(c.Seed % uint64(stride)); ti < len(targets); ti += stride {
 		t := targets[ti]
@@ -204,6 +204,20 @@ func c02Generate(c *mon.Ctx) {
 		b := mon.MkElemCase(q, gen.DrawRepr(hr, false))
 		op := []string{"add", "sub", "double", "negate", "arg-add", "arg-sub"}[rep%6]
 		c.Structured(func() any { return &c02Case{Op: op, B: &b, Alias: "distinct", Rel: "unrelated", Move: &mv, Observe: rep%2 == 0} })
+	}
+
+	// every mutator x every operation x the ways an object comes into being (raw limbs, the decoder, Base(), a Double): not
+	// left to the draw
+	for vi, via := range mon.ElemVias {
+		for oi, op := range []string{"add", "sub", "double", "negate", "arg-add", "arg-sub"} {
+			for ni, nat := range []int{4, 7, 0, -1} {
+				mv := mon.PlanElemMoveFrom(via, hr, nat)
+				q := gen.Fresh(hr)
+				b := mon.MkElemCase(q, gen.DrawRepr(hr, false))
+				obs := (vi+oi+ni)%2 == 0
+				c.Structured(func() any { return &c02Case{Op: op, B: &b, Alias: "distinct", Rel: "unrelated", Move: &mv, Observe: obs} })
+			}
+		}
 	}
 
 	for rep := 0; rep < 6; rep++ {
